@@ -56,11 +56,37 @@ class Monitor(object):
             return 'timed'
         return None
 
+    @staticmethod
+    def own_distance(ev):
+        """metres an event code plainly denotes (whole metres, hurdles / steeplechase / walk over whole metres, N[.d]K, N[.d]M miles,
+        yards, the named road events, relays of whole-number legs); None when the monitor has no opinion"""
+        c = ev.strip()
+        named = {'MAR': 42195, 'HM': 21098, 'MILE': 1609}          # in the spelling the estimator itself knows them by
+        if c in named:
+            return named[c]
+        m = re.match(r'^([0-9]{1,2})[xX]([0-9]{1,7})[Hh]?$', c)
+        if m:
+            return int(m.group(1)) * int(m.group(2))
+        m = re.match(r'^([0-9]{1,7})(?:[Hh]|[Ss][Cc]|[Ww]|m)?$', c)
+        if m:
+            return int(m.group(1))
+        m = re.match(r'^([0-9]{1,4}(?:\.[0-9]{1,2})?)([Kk]|[Kk][Ww]|M|MT|[Yy])$', c)
+        if m:
+            q = float(m.group(1))
+            return q * {'K': 1000, 'KW': 1000, 'M': 1609, 'MT': 1609, 'Y': 0.9144}[m.group(2).upper()]
+        return None
+
     def dclass(self, ev):
         try:
             d = self.dist(ev)
         except Exception:
             return 'distance-raises', None
+        own = self.own_distance(ev)
+        if own and (d is None or abs(d - own) > 0.01 * own + 1):
+            # the estimator the validation relies on is badly off for a code whose distance is plain: the speed limits would be
+            # applied to the wrong distance (consistently wrong on both sides, so the plausibility clause alone cannot see it)
+            self.ctx.violation('distance:estimate-differs-from-the-plain-reading-of-the-code', {'ev': ev}, own, d)
+            d = own
         if d is None:
             return 'unknown-distance', None
         return ('<=200m' if d <= 200 else '201-799m' if d < 800 else '>=800m'), d
@@ -122,7 +148,12 @@ class Monitor(object):
                 elif len(fields) == 2 and int(fields[1]) >= 60:
                     bad = 'timed:minutes-field->=60-under-hours'
                 else:
-                    dur = self.parse(r)
+                    # the duration of the well-formed result, read by the monitor itself
+                    dur = float(m.group(3) + (m.group(4) or ''))
+                    for fld in fields[::-1][:1]:
+                        dur += 60 * int(fld)
+                    if len(fields) == 2:
+                        dur += 3600 * int(fields[0])
                     if d:
                         if dur <= 0:
                             bad = 'timed:zero-duration-accepted'
